@@ -4411,6 +4411,18 @@ impl GlobalInferenceCtx<'_> {
                     return Ok(Ty::Unknown.into());
                 }
 
+                if self.world_bodies.global_is_extern(naive) {
+                    // an extern global has no body, its value is only known when linking
+                    self.diagnostics.push(TyDiagnostic {
+                        kind: TyDiagnosticKind::CantUseAsTy,
+                        file: self.loc.file(),
+                        expr: Some(total_expr),
+                        range: name_range,
+                        help: None,
+                    });
+                    return Ok(Ty::Unknown.into());
+                }
+
                 let global_body = self.world_bodies.global_body(naive);
 
                 // most global bodies will already have set `meta_tys` with the
